@@ -11,7 +11,14 @@
                         and success-with-data or error); [outs] is the SET of duties triggered for
                         this tick: (type, slot, definition set, deadline passed to the delay function)
      LReorg ep          HandleChainReorgEvent(ep) ran (feature SSEReorgDuties enabled)
-     LQuiet             every goroutine is blocked and the ticker has nothing to deliver
+     LHead slot fetch   HandleHeadEvent(slot) ran; [fetch] = the definition set handed to the registered
+                        fetch-only function (early attestation-data fetch), None = it was not called
+     LFire slot defs    with fetch_att_on_block / fetch_att_on_block_with_delay enabled the attester duty
+                        is not delayed through the delay function: its goroutine waits on the clock until
+                        slot start + 1/3 slot (+300ms) and then calls the duty subscribers; LFire is that
+                        call, observed at the current clock
+     LQuiet             every goroutine is blocked, the ticker has nothing to deliver and no waiting
+                        attester duty is due
    Correspondence = trace inclusion: the label sequence recorded from the Go scheduler must be
    accepted by [run].  Triggers are launched with `go` and sleep through the injectable delay
    function, so the per-tick output is compared as a set.  Time is in nanoseconds since genesis.
@@ -21,8 +28,12 @@
    slices.SortFunc by slot (not a stable sort): the label lists them in processing order and the
    model requires that order to be sorted by slot (any tie order).
 
-   Not modelled: builder registrations, slot subscribers, GetDutyDefinition waiters, the
-   FetchAttOnBlock* feature flags (alpha, off), nil elements in beacon-node responses, context
+   The feature flags are the parameter [fm] (FOff: neither flag; FOn: fetch_att_on_block only;
+   FOnDelay: fetch_att_on_block_with_delay, alone or with the other), [ff] says whether a fetch-only
+   function is registered.
+
+   Not modelled: builder registrations, slot subscribers, GetDutyDefinition waiters, nil elements in
+   beacon-node responses, context
    cancellation, a tick delivered late because the Run loop is still busy (the delivered slot is then
    older than the clock says; slots still strictly increase), HandleChainReorgEvent running
    concurrently with scheduleSlot (it is three separate critical sections in Go; here it is atomic
@@ -65,7 +76,21 @@ Inductive label :=
 | LAdv (dt : N)
 | LTick (slot : N) (script : list resn) (outs : list trigger)
 | LReorg (ep : N)
+| LHead (slot : N) (fetch : option (list (N * entry)))
+| LFire (slot : N) (defs : list (N * entry))
 | LQuiet.
+
+(* Feature flags: neither / fetch_att_on_block only / fetch_att_on_block_with_delay (alone or with the other). *)
+Inductive fmode := FOff | FOn | FOnDelay.
+Definition flags_on (fm : fmode) : bool := match fm with FOff => false | _ => true end.
+
+(* A waiting attester duty: slot, definition set captured at the tick, instant it is released. *)
+Definition waiting := (N * list (N * entry) * N)%type.
+Definition w_slot (w : waiting) : N := fst (fst w).
+Definition w_defs (w : waiting) : list (N * entry) := snd (fst w).
+Definition w_due (w : waiting) : N := snd w.
+Definition find_w (slot : N) (l : list waiting) : option waiting := find (fun w => w_slot w =? slot) l.
+Definition remove_w (slot : N) (l : list waiting) : list waiting := filter (fun w => negb (w_slot w =? slot)) l.
 
 Definition entry_eqb (a b : entry) : bool :=
   (e_vidx a =? e_vidx b) && (e_pk a =? e_pk b) && (e_slot a =? e_slot b) && (e_data a =? e_data b).
@@ -107,6 +132,8 @@ Fixpoint sorted_slots (l : list entry) : bool :=
 Section Scheduler.
 Variable D : N.      (* slot duration in nanoseconds *)
 Variable spe : N.    (* slots per epoch *)
+Variable fm : fmode. (* feature flags *)
+Variable ff : bool.  (* RegisterFetcherFetchOnly was called *)
 
 Definition epoch_of (slot : N) : N := slot / spe.
 Definition last_in_epoch (slot : N) : bool := slot mod spe =? spe - 1.
@@ -122,6 +149,13 @@ Definition offset (ty : dtype) : option N :=
 
 Definition deadline (ty : dtype) (slot : N) : option N :=
   match offset ty with Some o => Some (slot * D + o) | None => None end.
+
+(* waitForEarlyFetchOrTimeout: with a flag on, the attester duty waits on the clock until slot start +
+   1/3 slot, plus 300ms when fetch_att_on_block_with_delay is enabled. *)
+Definition att_offset : N := D * 1 / 3 + match fm with FOnDelay => 300000000 | _ => 0 end.
+Definition att_due (slot : N) : N := slot * D + att_offset.
+(* The duty types that take that path instead of the delay function. *)
+Definition fire_later (ty : dtype) : bool := flags_on fm && dtype_eqb ty Attester.
 
 (* resolveActiveValidators: active status, or activation epoch equal to the epoch being resolved. *)
 Definition is_active (ep : N) (v : vrec) : bool := v_active v || (v_actep v =? ep).
@@ -156,6 +190,16 @@ Definition set_def (st : dstore) (d : duty) (ep pk : N) (e : entry) : dstore * b
 Definition trim (ep : N) (st : dstore) : dstore :=
   let l := snd st ep in
   (fun d => if mem_duty d l then [] else fst st d, upd_e (snd st) ep []).
+
+(* trimDuties with a flag on also calls trimEventTriggeredAttestations -- after the early return for an
+   epoch without duties: every entry for a slot before the end of that epoch is deleted. *)
+Definition trim_eta (ep : N) (st : dstore) (eta : list N) : list N :=
+  if flags_on fm then
+    match snd st ep with
+    | [] => eta
+    | _ :: _ => filter (fun sl => negb (sl <? (ep + 1) * spe)) eta
+    end
+  else eta.
 
 (* resolveAttDuties, after the sort; false = "invalid attester duty pubkey" (the loop stops there). *)
 Fixpoint proc_att (slot ep : N) (act : list vrec) (l : list entry) (st : dstore) : dstore * bool :=
@@ -207,13 +251,16 @@ Record state := mk {
   now : N;                 (* clock *)
   expect : N;              (* the slot the ticker goroutine is waiting for *)
   resolved : option N;     (* resolvedEpoch, None = math.MaxInt64 *)
-  store : dstore
+  store : dstore;
+  eta : list N;            (* eventTriggeredAttestations: slots with an entry *)
+  pend : list waiting      (* attester goroutines waiting in waitForEarlyFetchOrTimeout *)
 }.
 
-Definition init (t0 : N) : state := mk t0 (t0 / D) None (fun _ => [], fun _ => []).
+Definition init (t0 : N) : state := mk t0 (t0 / D) None (fun _ => [], fun _ => []) [] [].
 
-Definition with_store (s : state) (st : dstore) : state := mk (now s) (expect s) (resolved s) st.
-Definition with_resolved (s : state) (r : option N) : state := mk (now s) (expect s) r (store s).
+Definition with_store (s : state) (st : dstore) : state := mk (now s) (expect s) (resolved s) st (eta s) (pend s).
+Definition with_resolved (s : state) (r : option N) : state := mk (now s) (expect s) r (store s) (eta s) (pend s).
+Definition with_pend (s : state) (p : list waiting) : state := mk (now s) (expect s) (resolved s) (store s) (eta s) p.
 
 Definition none_call (c : option dcall) : bool := match c with None => true | Some _ => false end.
 
@@ -270,7 +317,8 @@ Definition resolve (s : state) (slot : N) (r : resn) : option state :=
                                     (* setResolvedEpoch(ep); trimDuties(ep - trimEpochOffset): the
                                        uint64 subtraction wraps below 3 and then finds nothing. *)
                                     let st4 := if 3 <=? ep then trim (ep - 3) st3 else st3 in
-                                    Some (mk (now s) (expect s) (Some ep) st4)
+                                    let eta4 := if 3 <=? ep then trim_eta (ep - 3) st3 (eta s) else eta s in
+                                    Some (mk (now s) (expect s) (Some ep) st4 eta4 (pend s))
                               end
                           end
                       end
@@ -283,8 +331,10 @@ Definition resolve (s : state) (slot : N) (r : resn) : option state :=
 (* core.AllDutyTypes() restricted to the types that can have a definition, in iteration order. *)
 Definition types : list dtype := [Proposer; Attester; Aggregator; SyncContribution].
 
-(* The loop of scheduleSlot: for every duty type with a definition set, launch the trigger, and on the
-   last slot of the epoch call resolveDuties(slot.Next()) -- inside the loop, once per such type. *)
+(* The loop of scheduleSlot: for every duty type with a definition set, launch the trigger goroutine
+   (which either goes through the delay function and calls the subscribers -- an element of the tick's
+   output set -- or, for the attester duty with a flag on, starts waiting on the clock), and on the last
+   slot of the epoch call resolveDuties(slot.Next()) -- inside the loop, once per such type. *)
 Fixpoint tick_loop (tys : list dtype) (slot : N) (s : state) (sc : list resn)
   : option (state * list resn * list trigger) :=
   match tys with
@@ -293,23 +343,24 @@ Fixpoint tick_loop (tys : list dtype) (slot : N) (s : state) (sc : list resn)
       match fst (store s) (ty, slot) with
       | [] => tick_loop r slot s sc
       | ds =>
-          let tr := T ty slot ds (deadline ty slot) in
+          let trs := if fire_later ty then [] else [T ty slot ds (deadline ty slot)] in
+          let s0 := if fire_later ty then with_pend s (pend s ++ [(slot, ds, att_due slot)]) else s in
           if last_in_epoch slot then
             match sc with
             | [] => None
             | rn :: sc' =>
-                match resolve s (slot + 1) rn with
+                match resolve s0 (slot + 1) rn with
                 | None => None
                 | Some s' =>
                     match tick_loop r slot s' sc' with
-                    | Some (s'', sc'', outs) => Some (s'', sc'', tr :: outs)
+                    | Some (s'', sc'', outs) => Some (s'', sc'', trs ++ outs)
                     | None => None
                     end
                 end
             end
           else
-            match tick_loop r slot s sc with
-            | Some (s'', sc'', outs) => Some (s'', sc'', tr :: outs)
+            match tick_loop r slot s0 sc with
+            | Some (s'', sc'', outs) => Some (s'', sc'', trs ++ outs)
             | None => None
             end
       end
@@ -336,22 +387,49 @@ Definition sched_slot (s : state) (slot : N) (sc : list resn) : option (state * 
   | Some (s1, sc1) => tick_loop types slot s1 sc1
   end.
 
+Definition nonempty {A} (l : list A) : bool := match l with [] => false | _ => true end.
+
+Definition due_none (now : N) (p : list waiting) : bool := forallb (fun w => now <? w_due w) p.
+
 Definition step (s : state) (l : label) : option state :=
   match l with
-  | LAdv dt => Some (mk (now s + dt) (expect s) (resolved s) (store s))
+  | LAdv dt => Some (mk (now s + dt) (expect s) (resolved s) (store s) (eta s) (pend s))
   | LTick slot sc outs =>
       if ticker_enabled s && (slot =? ticker_slot s) then
-        match sched_slot (mk (now s) (slot + 1) (resolved s) (store s)) slot sc with
+        match sched_slot (mk (now s) (slot + 1) (resolved s) (store s) (eta s) (pend s)) slot sc with
         | Some (s', [], exp) => if same_set trig_eqb outs exp then Some s' else None
         | _ => None
         end
       else None
   | LReorg ep =>
       match resolved s with
-      | Some r => if ep <? r then Some (mk (now s) (expect s) None (trim r (store s))) else Some s
+      | Some r => if ep <? r
+                  then Some (mk (now s) (expect s) None (trim r (store s)) (trim_eta r (store s) (eta s)) (pend s))
+                  else Some s
       | None => Some s
       end
-  | LQuiet => if ticker_enabled s then None else Some s
+  | LHead slot fetch =>
+      (* HandleHeadEvent: no fetch-only function -> return; no flag -> return; no attester definitions
+         for the slot -> return; LoadOrStore(slot): already there -> return; else fetch (async). *)
+      let ds := fst (store s) (Attester, slot) in
+      if ff && flags_on fm && nonempty ds && negb (memN slot (eta s)) then
+        match fetch with
+        | Some defs => if same_set def_eqb defs ds
+                       then Some (mk (now s) (expect s) (resolved s) (store s) (slot :: eta s) (pend s))
+                       else None
+        | None => None
+        end
+      else match fetch with None => Some s | Some _ => None end
+  | LFire slot defs =>
+      (* the waiting attester goroutine: released by the clock at its due instant, then
+         eventTriggeredAttestations.Store(slot), then the duty subscribers *)
+      match find_w slot (pend s) with
+      | Some w => if (w_due w <=? now s) && same_set def_eqb defs (w_defs w)
+                  then Some (mk (now s) (expect s) (resolved s) (store s) (slot :: eta s) (remove_w slot (pend s)))
+                  else None
+      | None => None
+      end
+  | LQuiet => if ticker_enabled s || negb (due_none (now s) (pend s)) then None else Some s
   end.
 
 Fixpoint run (s : state) (ls : list label) : option state :=
@@ -432,11 +510,11 @@ Definition for_duty (d : duty) (gs : list (duty * (N * entry))) : list (N * entr
 Definition query (log : list item) (d : duty) : list (N * entry) :=
   first_wins [] (for_duty d (flat_map grants log)).
 
-Record ghost := mkg { g_now : N; g_resolved : option N; g_log : list item; g_trig : list duty }.
-Definition ginit (t0 : N) : ghost := mkg t0 None [] [].
+Record ghost := mkg { g_now : N; g_resolved : option N; g_log : list item; g_trig : list duty; g_pend : list waiting }.
+Definition ginit (t0 : N) : ghost := mkg t0 None [] [] [].
 
-Definition g_add (g : ghost) (it : item) : ghost := mkg (g_now g) (g_resolved g) (g_log g ++ [it]) (g_trig g).
-Definition g_res (g : ghost) (r : option N) : ghost := mkg (g_now g) r (g_log g) (g_trig g).
+Definition g_add (g : ghost) (it : item) : ghost := mkg (g_now g) (g_resolved g) (g_log g ++ [it]) (g_trig g) (g_pend g).
+Definition g_res (g : ghost) (r : option N) : ghost := mkg (g_now g) r (g_log g) (g_trig g) (g_pend g).
 
 Definition ok_res (c : option dcall) : option (list entry) :=
   match c with Some c' => c_res c' | None => None end.
@@ -475,12 +553,21 @@ Definition gres (g : ghost) (slot : N) (r : resn) : ghost :=
       end
   end.
 
-(* The triggers the log prescribes for a tick of [slot]. *)
-Definition expected (log : list item) (slot : N) : list trigger :=
+(* The triggers the log prescribes for a tick of [slot] (every assigned duty, except the attester duty
+   when a flag is on: that one starts waiting and is released at [att_due]). *)
+Definition exp_for (log : list item) (slot : N) (tys : list dtype) : list trigger :=
   flat_map (fun ty => match query log (ty, slot) with
                       | [] => []
-                      | ds => [T ty slot ds (deadline ty slot)]
-                      end) types.
+                      | ds => if fire_later ty then [] else [T ty slot ds (deadline ty slot)]
+                      end) tys.
+Definition pend_for (log : list item) (slot : N) (tys : list dtype) : list waiting :=
+  flat_map (fun ty => match query log (ty, slot) with
+                      | [] => []
+                      | ds => if fire_later ty then [(slot, ds, att_due slot)] else []
+                      end) tys.
+Definition with_defs (log : list item) (slot : N) (tys : list dtype) : list dtype :=
+  filter (fun ty => nonempty (query log (ty, slot))) tys.
+Definition expected (log : list item) (slot : N) : list trigger := exp_for log slot types.
 
 (* The ghost after the first resolution of a tick (made iff the epoch is not the resolved one). *)
 Definition g_first (g : ghost) (slot : N) (sc : list resn) : ghost * list resn :=
@@ -506,24 +593,36 @@ Definition check (g : ghost) (l : label) : bool :=
       && same_set trig_eqb outs (expected (g_log g1) slot)             (* exactly the assigned duties, with
                                                                           the assigned definitions and the
                                                                           type's deadline *)
+  | LFire slot defs =>
+      (* the subscribers of an attester duty are called directly: only for a duty that a tick put in
+         waiting, with the definitions of that tick, not before slot start + offset, never twice *)
+      match find_w slot (g_pend g) with
+      | Some w => (w_due w <=? g_now g) && same_set def_eqb defs (w_defs w)
+                  && negb (mem_duty (Attester, slot) (g_trig g))
+      | None => false
+      end
+  | LQuiet => due_none (g_now g) (g_pend g)      (* every waiting duty that is due has been triggered *)
   | _ => true
   end.
 
 Definition gstep (g : ghost) (l : label) : ghost :=
   match l with
-  | LAdv dt => mkg (g_now g + dt) (g_resolved g) (g_log g) (g_trig g)
+  | LAdv dt => mkg (g_now g + dt) (g_resolved g) (g_log g) (g_trig g) (g_pend g)
   | LTick slot sc outs =>
       let '(g1, sc1) := g_first g slot sc in
-      let k := if last_in_epoch slot then length (expected (g_log g1) slot) else 0%nat in
+      let k := if last_in_epoch slot then length (with_defs (g_log g1) slot types) else 0%nat in
       let g2 := g_rest k g1 (slot + 1) sc1 in
       mkg (g_now g2) (g_resolved g2) (g_log g2) (g_trig g2 ++ map trig_duty outs)
+          (g_pend g2 ++ pend_for (g_log g1) slot types)
   | LReorg ep =>
       match g_resolved g with
       | Some r => if ep <? r
-                  then mkg (g_now g) None (filter (fun it => negb (i_ep it =? r)) (g_log g)) (g_trig g)
+                  then mkg (g_now g) None (filter (fun it => negb (i_ep it =? r)) (g_log g)) (g_trig g) (g_pend g)
                   else g
       | None => g
       end
+  | LHead _ _ => g          (* early fetches are not duty triggers: the property does not constrain them *)
+  | LFire slot _ => mkg (g_now g) (g_resolved g) (g_log g) (g_trig g ++ [(Attester, slot)]) (remove_w slot (g_pend g))
   | LQuiet => g
   end.
 
